@@ -214,6 +214,321 @@ fn field_type(desc: &[u16], mut i: usize) -> Option<(usize, u32)> {
 	Some((i, if dims > 0 { 1 } else { width }))
 }
 
+
+// ---------------------------------------------------------------------------------------------
+// canonical order
+
+fn type_rank(v: &Value) -> u8 {
+	match v {
+		Value::Null => 0,
+		Value::Bool(false) => 1,
+		Value::Bool(true) => 2,
+		Value::Number(_) => 3,
+		Value::String(_) => 4,
+		Value::Array(_) => 5,
+		Value::Object(_) => 6,
+	}
+}
+
+fn num_i128(n: &serde_json::Number) -> i128 {
+	if let Some(i) = n.as_i64() {
+		i as i128
+	} else if let Some(u) = n.as_u64() {
+		u as i128
+	} else {
+		// facts never contain non-integers; order them deterministically anyway
+		n.as_f64().map(|f| f as i128).unwrap_or(0)
+	}
+}
+
+/// The canonical total order on JSON values of FACTS.md §1.3.
+pub fn canon_cmp(a: &Value, b: &Value) -> std::cmp::Ordering {
+	use std::cmp::Ordering::*;
+	let (ra, rb) = (type_rank(a), type_rank(b));
+	if ra != rb {
+		return ra.cmp(&rb);
+	}
+	match (a, b) {
+		(Value::Number(x), Value::Number(y)) => num_i128(x).cmp(&num_i128(y)),
+		(Value::String(x), Value::String(y)) => x.as_str().cmp(y.as_str()),
+		(Value::Array(x), Value::Array(y)) => {
+			for (p, q) in x.iter().zip(y.iter()) {
+				let c = canon_cmp(p, q);
+				if c != Equal {
+					return c;
+				}
+			}
+			x.len().cmp(&y.len())
+		}
+		(Value::Object(x), Value::Object(y)) => {
+			let mut kx: Vec<(&String, &Value)> = x.iter().collect();
+			let mut ky: Vec<(&String, &Value)> = y.iter().collect();
+			kx.sort_by(|p, q| p.0.cmp(q.0));
+			ky.sort_by(|p, q| p.0.cmp(q.0));
+			for (p, q) in kx.iter().zip(ky.iter()) {
+				let c = p.0.cmp(q.0);
+				if c != Equal {
+					return c;
+				}
+				let c = canon_cmp(p.1, q.1);
+				if c != Equal {
+					return c;
+				}
+			}
+			kx.len().cmp(&ky.len())
+		}
+		_ => Equal,
+	}
+}
+
+/// Sorts a list canonically (stable).
+pub fn canon_sort(list: &mut [Value]) {
+	list.sort_by(canon_cmp);
+}
+
+/// Sorts canonically and removes duplicates.
+pub fn canon_sort_dedup(list: &mut Vec<Value>) {
+	list.sort_by(canon_cmp);
+	list.dedup();
+}
+
+// ---------------------------------------------------------------------------------------------
+// descriptors
+
+/// One parsed field type of a descriptor.
+#[derive(Debug, Clone, PartialEq, Eq)]
+pub enum FieldType {
+	/// `B C I S Z F J D`
+	Prim(u8),
+	/// `Lname;` — the name (without `L` and `;`) as UTF-16 units.
+	Object(Vec<u16>),
+	/// an array type — the complete descriptor (from the first `[`) as UTF-16 units.
+	Array(Vec<u16>),
+}
+
+impl FieldType {
+	pub fn slots(&self) -> u32 {
+		match self {
+			FieldType::Prim(b'J') | FieldType::Prim(b'D') => 2,
+			_ => 1,
+		}
+	}
+}
+
+fn class_name_in_descriptor_ok(name: &[u16]) -> bool {
+	if name.is_empty() {
+		return false;
+	}
+	let mut seg_len = 0usize;
+	for &c in name {
+		if c == b'/' as u16 {
+			if seg_len == 0 {
+				return false;
+			}
+			seg_len = 0;
+		} else if c == b'.' as u16 || c == b';' as u16 || c == b'[' as u16 {
+			return false;
+		} else {
+			seg_len += 1;
+		}
+	}
+	seg_len != 0
+}
+
+/// Strictly parses one field type starting at `i`; returns the type and the index after it.
+///
+/// JVMS 4.3.2: at most 255 array dimensions; a class name is non-empty, consists of non-empty
+/// `/`-separated segments and contains none of `.` `;` `[`.
+pub fn parse_field_type(desc: &[u16], start: usize) -> Option<(FieldType, usize)> {
+	let mut i = start;
+	let mut dims = 0usize;
+	while *desc.get(i)? == b'[' as u16 {
+		dims += 1;
+		i += 1;
+	}
+	if dims > 255 {
+		return None;
+	}
+	let c = *desc.get(i)?;
+	let c8 = u8::try_from(c).ok()?;
+	let base = match c8 {
+		b'B' | b'C' | b'F' | b'I' | b'S' | b'Z' | b'D' | b'J' => {
+			i += 1;
+			FieldType::Prim(c8)
+		}
+		b'L' => {
+			i += 1;
+			let s = i;
+			while *desc.get(i)? != b';' as u16 {
+				i += 1;
+			}
+			let name = desc.get(s..i)?;
+			if !class_name_in_descriptor_ok(name) {
+				return None;
+			}
+			i += 1;
+			FieldType::Object(name.to_vec())
+		}
+		_ => return None,
+	};
+	if dims > 0 {
+		Some((FieldType::Array(desc.get(start..i)?.to_vec()), i))
+	} else {
+		Some((base, i))
+	}
+}
+
+/// `true` iff `desc` is a well-formed field descriptor (JVMS 4.3.2).
+pub fn is_field_descriptor(desc: &[u16]) -> bool {
+	matches!(parse_field_type(desc, 0), Some((_, n)) if n == desc.len())
+}
+
+/// Parses a method descriptor (JVMS 4.3.3) into its parameter types; `None` if malformed.
+/// The number of argument slots is *not* limited here, see [`method_arg_slots`].
+pub fn parse_method_descriptor(desc: &[u16]) -> Option<Vec<FieldType>> {
+	if desc.first() != Some(&(b'(' as u16)) {
+		return None;
+	}
+	let mut i = 1usize;
+	let mut params = Vec::new();
+	loop {
+		if *desc.get(i)? == b')' as u16 {
+			i += 1;
+			break;
+		}
+		let (t, n) = parse_field_type(desc, i)?;
+		params.push(t);
+		i = n;
+	}
+	if desc.get(i) == Some(&(b'V' as u16)) {
+		i += 1;
+	} else {
+		let (_, n) = parse_field_type(desc, i)?;
+		i = n;
+	}
+	if i == desc.len() {
+		Some(params)
+	} else {
+		None
+	}
+}
+
+/// Argument slots of a well-formed method descriptor (long/double count 2), without `this`.
+pub fn method_arg_slots(desc: &[u16]) -> Option<u32> {
+	parse_method_descriptor(desc).map(|p| p.iter().map(FieldType::slots).sum())
+}
+
+/// `true` iff `desc` is a well-formed method descriptor with at most 255 argument slots.
+pub fn is_method_descriptor(desc: &[u16]) -> bool {
+	matches!(method_arg_slots(desc), Some(n) if n <= 255)
+}
+
+// ---------------------------------------------------------------------------------------------
+// stack map frames
+
+pub const ACC_STATIC: u64 = 0x0008;
+
+/// The verification type (FACTS.md §5.4) of a parameter type.
+pub fn vt_of_field_type(t: &FieldType) -> Value {
+	match t {
+		FieldType::Prim(b'F') => json!("float"),
+		FieldType::Prim(b'J') => json!("long"),
+		FieldType::Prim(b'D') => json!("double"),
+		FieldType::Prim(_) => json!("int"),
+		FieldType::Object(n) => json!({ "object": s_from_units(n) }),
+		FieldType::Array(d) => json!({ "object": s_from_units(d) }),
+	}
+}
+
+/// The locals of the initial frame of a method (FACTS.md §5.4). `None` if `desc` is malformed.
+pub fn initial_locals(this_class: &Value, method_access: u64, method_name: &Value, method_desc: &Value) -> Option<Vec<Value>> {
+	let desc = s_to_units(method_desc).ok()?;
+	let params = parse_method_descriptor(&desc)?;
+	let mut locals = Vec::with_capacity(params.len() + 1);
+	if method_access & ACC_STATIC == 0 {
+		let is_init = matches!(method_name, Value::String(s) if s == "<init>");
+		let is_object = matches!(this_class, Value::String(s) if s == "java/lang/Object");
+		if is_init && !is_object {
+			locals.push(json!("uninitialized_this"));
+		} else {
+			locals.push(json!({ "object": this_class.clone() }));
+		}
+	}
+	for p in &params {
+		locals.push(vt_of_field_type(p));
+	}
+	Some(locals)
+}
+
+/// Expands compressed stack map frames (FACTS.md §5.4): holds the locals of the previous frame.
+#[derive(Debug, Clone)]
+pub struct FrameState {
+	pub locals: Vec<Value>,
+}
+
+impl FrameState {
+	pub fn new(initial_locals: Vec<Value>) -> FrameState {
+		FrameState { locals: initial_locals }
+	}
+	/// same_frame / same_frame_extended
+	pub fn same(&mut self) -> (Vec<Value>, Vec<Value>) {
+		(self.locals.clone(), Vec::new())
+	}
+	/// same_locals_1_stack_item_frame (also extended)
+	pub fn same_locals_1(&mut self, stack: Value) -> (Vec<Value>, Vec<Value>) {
+		(self.locals.clone(), vec![stack])
+	}
+	/// chop_frame; `Err` if fewer than `k` locals exist.
+	pub fn chop(&mut self, k: usize) -> std::result::Result<(Vec<Value>, Vec<Value>), String> {
+		if k > self.locals.len() {
+			return Err(format!("chop of {k} locals but only {} exist", self.locals.len()));
+		}
+		let n = self.locals.len() - k;
+		self.locals.truncate(n);
+		Ok((self.locals.clone(), Vec::new()))
+	}
+	/// append_frame
+	pub fn append(&mut self, more: Vec<Value>) -> (Vec<Value>, Vec<Value>) {
+		self.locals.extend(more);
+		(self.locals.clone(), Vec::new())
+	}
+	/// full_frame
+	pub fn full(&mut self, locals: Vec<Value>, stack: Vec<Value>) -> (Vec<Value>, Vec<Value>) {
+		self.locals = locals;
+		(self.locals.clone(), stack)
+	}
+}
+
+pub fn hex(bytes: &[u8]) -> String {
+	const D: &[u8; 16] = b"0123456789abcdef";
+	let mut s = String::with_capacity(bytes.len() * 2);
+	for &b in bytes {
+		s.push(D[(b >> 4) as usize] as char);
+		s.push(D[(b & 15) as usize] as char);
+	}
+	s
+}
+
+pub fn unhex(s: &str) -> Option<Vec<u8>> {
+	let b = s.as_bytes();
+	if b.len() % 2 != 0 {
+		return None;
+	}
+	let d = |c: u8| -> Option<u8> {
+		match c {
+			b'0'..=b'9' => Some(c - b'0'),
+			b'a'..=b'f' => Some(c - b'a' + 10),
+			b'A'..=b'F' => Some(c - b'A' + 10),
+			_ => None,
+		}
+	};
+	let mut out = Vec::with_capacity(b.len() / 2);
+	for p in b.chunks(2) {
+		out.push(d(p[0])? << 4 | d(p[1])?);
+	}
+	Some(out)
+}
+
 #[cfg(test)]
 mod tests {
 	use super::*;
@@ -250,5 +565,39 @@ mod tests {
 		assert_eq!(d("(V)V"), None);
 		assert_eq!(d("()"), None);
 		assert_eq!(d("(L;)V"), None);
+	}
+
+	#[test]
+	fn canon_order() {
+		let mut v = vec![json!([2, 1]), json!([1, 5]), json!([1, 2]), json!({"a":1}), json!("x"), json!(3), json!(null)];
+		canon_sort(&mut v);
+		assert_eq!(v, vec![json!(null), json!(3), json!("x"), json!([1, 2]), json!([1, 5]), json!([2, 1]), json!({"a":1})]);
+	}
+
+	#[test]
+	fn descriptors() {
+		let u = |s: &str| s.encode_utf16().collect::<Vec<_>>();
+		assert!(is_field_descriptor(&u("I")));
+		assert!(is_field_descriptor(&u("[[Ljava/lang/String;")));
+		assert!(!is_field_descriptor(&u("Ljava.lang.String;")));
+		assert!(!is_field_descriptor(&u("L/a;")));
+		assert!(!is_field_descriptor(&u("La//b;")));
+		assert!(!is_field_descriptor(&u("V")));
+		assert!(!is_field_descriptor(&u("II")));
+		assert!(is_method_descriptor(&u("(IJ[DLjava/lang/Object;)V")));
+		assert!(!is_method_descriptor(&u("(V)V")));
+		let big = format!("({})V", "J".repeat(128));
+		assert!(!is_method_descriptor(&u(&big)));
+		let l = initial_locals(&json!("a/B"), 0, &json!("<init>"), &json!("(IJ[ILx/Y;)V")).unwrap();
+		assert_eq!(l, vec![json!("uninitialized_this"), json!("int"), json!("long"), json!({"object":"[I"}), json!({"object":"x/Y"})]);
+		let l = initial_locals(&json!("a/B"), 8, &json!("m"), &json!("(F)V")).unwrap();
+		assert_eq!(l, vec![json!("float")]);
+	}
+
+	#[test]
+	fn hex_roundtrip() {
+		assert_eq!(hex(&[0, 0xab, 0xff]), "00abff");
+		assert_eq!(unhex("00abFF"), Some(vec![0, 0xab, 0xff]));
+		assert_eq!(unhex("0"), None);
 	}
 }
